@@ -274,6 +274,9 @@ pub struct ColdCase {
     pub spec: Spec,
     /// (handshake, bytes, delay before the target starts reading in ms) per concurrent flow
     pub uploads: Vec<(Hs, u32, u16)>,
+    /// flows in which the target answers this many bytes and half-closes while the application keeps uploading
+    #[serde(default)]
+    pub busy_answers: Vec<(Hs, u32)>,
 }
 
 pub struct ColdUpload;
@@ -288,12 +291,16 @@ fn cold_once(c: &ColdCase) -> (Option<FlowFail>, Vec<String>) {
     let mut fails = vec![];
     std::thread::scope(|sc| {
         let hs: Vec<_> = c.uploads.iter().enumerate().map(|(i, (h, n, d))| sc.spawn(move || crate::sys::flow::cold_upload(port, *h, *n, 3000 + i as u64, *d))).collect();
-        for h in hs {
+        let hb: Vec<_> = c.busy_answers.iter().enumerate().map(|(i, (h, n))| sc.spawn(move || crate::sys::flow::answer_during_upload(port, *h, *n, 4000 + i as u64))).collect();
+        for h in hs.into_iter().chain(hb) {
             if let Ok(Err(f)) = h.join() {
                 fails.push(f);
             }
         }
     });
+    if !c.busy_answers.is_empty() {
+        labels.push("answer-during-upload".into());
+    }
     for (_, n, d) in &c.uploads {
         labels.push(format!("upload:{}", crate::gen::size_class(*n as usize)));
         if *d > 0 {
@@ -305,7 +312,7 @@ fn cold_once(c: &ColdCase) -> (Option<FlowFail>, Vec<String>) {
         fail = Some(FlowFail { soft: false, sig: "process-or-task-died".into(), msg: h });
     }
     if let Some(f) = &mut fail {
-        f.msg = format!("{} [{}; uploads={:?}]\n{}", f.msg, c.spec.short(), c.uploads, crate::ev::truncate(&cl.logs(8), 1500));
+        f.msg = format!("{} [{}; uploads={:?}; answers during upload={:?}]\n{}", f.msg, c.spec.short(), c.uploads, c.busy_answers, crate::ev::truncate(&cl.logs(8), 1500));
     }
     (fail, labels)
 }
@@ -319,7 +326,8 @@ impl SubCheck for ColdUpload {
         let max = if tier == Tier::Thorough { 6 * 1024 * 1024 } else { 1_500_000u32 };
         let size = prop_oneof![2 => 1u32..70_000, 3 => 70_000u32..=max, 1 => Just(1_048_576u32)];
         let up = (hs_strategy(), size, prop_oneof![3 => Just(0u16), 2 => 1u16..400, 1 => 800u16..1600]);
-        (spec_strategy(None), proptest::collection::vec(up, 1..=8)).prop_map(|(spec, uploads)| ColdCase { spec, uploads }).boxed()
+        let busy = (hs_strategy(), prop_oneof![1 => 1u32..70_000, 2 => 70_000u32..=max]);
+        (spec_strategy(None), proptest::collection::vec(up, 0..=6), proptest::collection::vec(busy, 0..=3)).prop_map(|(spec, uploads, busy_answers)| ColdCase { spec, uploads, busy_answers }).boxed()
     }
     fn exec(&self, c: &ColdCase) -> Outcome {
         let (mut fail, mut labels) = cold_once(c);
@@ -337,11 +345,11 @@ impl SubCheck for ColdUpload {
             fail = f2;
         }
         let mut out = Outcome::new();
-        out.weight = c.uploads.len() as u64;
+        out.weight = (c.uploads.len() + c.busy_answers.len()).max(1) as u64;
         for l in labels {
             out.label(l);
         }
-        if c.uploads.iter().any(|(_, n, _)| *n > 65536) {
+        if c.uploads.iter().any(|(_, n, _)| *n > 65536) || c.busy_answers.iter().any(|(_, n)| *n > 65536) {
             out.nontrivial(format!("{}|{:?}", c.spec.short(), c.uploads.iter().map(|(h, n, d)| (h.name(), crate::gen::size_class(*n as usize), *d > 0)).collect::<Vec<_>>()));
         }
         if let Some(f) = fail {
